@@ -50,7 +50,10 @@ def _run(km, mesh, q, cutoff, mode, dim, want):
     stale = [term(x) for x in kern.result]
     cd, values, is_mag = sdetails.make_kernel_args(kern, mesh)
     out = {"stale": stale, "num_eval": int(cd.num_eval)}
-    if want == "Iq":
+    if want == "call":
+        # the chunk loop only (H3): no Python-level post-processing forks
+        kern._call_kernel(cd, values, cutoff, is_mag, mode)
+    elif want == "Iq":
         out["Iq"] = [term(x) for x in kern.Iq(cd, values, cutoff, is_mag)]
     else:
         F1, F2, R, Vs, ratio = kern.Fq(cd, values, cutoff, is_mag, mode)
@@ -86,7 +89,8 @@ def _prove_side(u, side, H, mk):
 
 
 def unit_h1(cfg):
-    name, dim, lengths, mode, want = cfg
+    name, dim, lengths, mode, want = cfg[:5]
+    pid = cfg[5] if len(cfg) > 5 else "C01"
     label = "H1/%s/%s/%s/mode=%s/%s" % (name, dim, ",".join("%s=%d" % kv for kv in sorted(lengths.items())) or "mono", mode, want)
     u = Unit(label, timeout_ms=60000)
     try:
@@ -120,7 +124,7 @@ def unit_h1(cfg):
             continue
         H = p.constraints()
         ctx = dict(name=name, dim=dim, lengths=lengths, mode=mode, want=want, syms=syms, q=q,
-                   cutoff=cutoff)
+                   cutoff=cutoff, pid=pid)
         if p.exc is not None:
             u.prove("driver-raises-nothing", z3.BoolVal(False), H,
                     _cex(ctx, "exception:%s" % type(p.exc).__name__, repr(p.exc)))
@@ -358,7 +362,7 @@ def unit_h3(cfg):
     for pt in Reference(km, mesh, q, cutoff, 0, dim).points:
         A.append(pt["gate"])
     ex = symx.Explorer(timeout_ms=20000, max_paths=50, abstract=True)
-    paths = ex.explore(lambda: _run(km, mesh, q, cutoff, 0, dim, "Iq"), A)
+    paths = ex.explore(lambda: _run(km, mesh, q, cutoff, 0, dim, "call"), A)
     u.absorb(ex, paths)
     u.reachable(label, A)
     ref = Reference(km, mesh, q, cutoff, 0, dim)
@@ -536,7 +540,7 @@ def _cex(ctx, oracle, extra=""):
         inputs = {"model": ctx["name"], "dim": ctx["dim"], "mode": ctx["mode"], "cutoff": cut, "q": qq,
                   "mesh": [[float(v), [float(x) for x in d], [float(x) for x in w]] for v, d, w in mesh]}
         return {"reproduced": bool(defect > 1e-9),
-                "key": "C01/%s/%s" % (oracle.split(":")[0], _signature(ctx, mesh)),
+                "key": "%s/%s/%s" % (ctx.get("pid", "C01"), oracle.split(":")[0], _signature(ctx, mesh)),
                 "what": "%s %s mesh %s: real DLL result differs from the documented weighted mean "
                         "(relative defect %.3g) %s" % (ctx["name"], ctx["dim"], ctx["lengths"], defect, extra),
                 "inputs": inputs, "detail": detail, "block": None}
@@ -590,13 +594,92 @@ def configs(chk):
     return out
 
 
+def h2_configs(chk):
+    out = [("sphere", "1d", {"radius": 3}, 1),
+           ("cylinder", "1d", {"radius": 3, "length": 2}, 1),
+           ("cylinder", "2d", {"radius": 2, "phi": 2}, 0)]
+    if not chk.quick:
+        out += [("cylinder", "2d", {"radius": 2, "length": 2, "phi": 2}, 0),
+                ("core_shell_parallelepiped", "1d", {"length_a": 2, "length_b": 2, "length_c": 3}, 1),
+                ("triaxial_ellipsoid", "2d", {"radius_equat_minor": 2, "radius_equat_major": 2,
+                                              "radius_polar": 2, "theta": 2}, 0),
+                ("sphere", "1d", {"radius": 12}, 0)]
+    return out
+
+
+def h3_configs(chk):
+    out = [("sphere", "1d", {"radius": 101}),
+           ("cylinder", "1d", {"radius": 67, "length": 3}),
+           ("cylinder", "2d", {"radius": 26, "length": 4})]
+    if not chk.quick:
+        out += [("cylinder", "2d", {"radius": 2, "length": 2, "theta": 25})]
+        out += [("sphere", "1d", {"radius": n}) for n in (99, 100, 199, 200, 201, 300)]
+        out += [("core_shell_parallelepiped", "1d", {"length_a": 5, "length_b": 4, "length_c": 5, "thick_rim_a": 2}),
+                ("triaxial_ellipsoid", "2d", {"radius_equat_minor": 3, "radius_equat_major": 3,
+                                              "radius_polar": 3, "theta": 2, "phi": 2}),
+                ("cylinder", "2d", {"radius": 5, "length": 5, "theta": 2, "phi": 4})]
+    return out
+
+
+def _prebuild(name):
+    from vlib.llsym import build
+    from vlib.harness import new_unit
+    build.model_ir(core.load_model_info(name))
+    return new_unit("prebuild " + name)
+
+
+def _dispatch(item):
+    kind, cfg = item
+    return {"h1": unit_h1, "h2": unit_h2, "h3": unit_h3, "h4": unit_h4}[kind](cfg)
+
+
 def run(chk):
     chk.explanation = (
         "Symbolic execution of the real Python driver on z3 proxies composed with symbolic execution of the "
         "LLVM IR of each model's real generated kernel source (llsym); leaves are uninterpreted functions; "
-        "all values/weights/q/cutoff and the initial result buffer are symbolic. Each path's accumulators, "
-        "returned I(q) and Fq outputs are compared with the documented weighted-mean semantics by z3.")
-    cfgs = configs(chk)
+        "all values/weights/q/cutoff and the initial result buffer are symbolic. H1: each path's accumulators, "
+        "returned I(q) and Fq outputs equal the documented weighted mean (gates, one-point and empty "
+        "distributions included). H2: with symbolic integers 0<=start<mid<stop<=num_eval, one call over "
+        "[start,stop) equals two calls over [start,mid),[mid,stop) and accumulates exactly the mesh points of "
+        "its range onto the incoming buffer (independent of the buffer when start=0), so any partition follows "
+        "by induction. H3: the real 100-point chunk loop of DllKernel._call_kernel on meshes across the chunk "
+        "boundary. H4: make_details refuses max_pd+1 dispersed parameters.")
+    chk.bounds = {
+        "H1 mesh": "mono; every (quick: first two and last) dispersible parameter with 2 points; one with 3 points "
+                   "(Fq, effective-radius mode 1); sampled pairs 2x2; empty (0-point) distributions; nq=2 (1-D), 1 (2-D)",
+        "H2 mesh": "1-3 loops of length <=3 (quick), up to 4 loops / 12 points (thorough); nq=1; gates forced open",
+        "H3 mesh": "num_eval in {101,201,100} quick; {99,100,199,200,201,300,...} with up to 5 loops thorough; gates forced open",
+        "solver": "60 s per obligation (120 s H3), 20 s per fork feasibility; unknown = inconclusive",
+        "interpreter": "3e6 instruction cap per kernel call (reported if hit)",
+    }
+    chk.outside = ["OpenCL/CUDA variants of the template (USE_GPU branches)", "single/long-double builds",
+                   "meshes larger than the bounds (induction over the split obligation is a paper argument)",
+                   "rounding, overflow, NaN propagation (doubles are reals)",
+                   "numeric interior of the leaf functions (uninterpreted)",
+                   "the 6 magnetic-kernel (_Imagnetic) variants: C06"]
+    chk.stubs = ["ctypes function pointers of DllModel -> IR interpreter on the driver's own buffers (vlib.kharness.SymDll)",
+                 "DllKernel._as_dtype -> identity", "np.empty result buffer -> fresh symbols (arbitrary previous contents)",
+                 "Iq/Fq/Iqac/Iqabc/Iqxy/form_volume/shell_volume/radius_effective -> uninterpreted functions of their actual arguments",
+                 "libm sin/cos/sqrt -> uninterpreted with circle/sqrt axioms; exact values at 0/1 folded"]
+    chk.assumptions = ["weights >= 0, cutoff >= 0", "non-dispersible parameters carry ([value],[1]) (get_mesh contract)",
+                       "a one-point distribution has weight 1 (get_weights normalisation, C02); one-point jitter is 0",
+                       "sum(w*V_shell) != 0 on non-empty selections for the I(q) formula",
+                       "H2/H3: every weight > cutoff and the validity predicate holds (gate semantics is H1's subject)",
+                       "H2: ranges are non-empty (start < mid < stop); the drivers never request empty ranges (H3)"]
+    items = [("h1", c) for c in configs(chk)]
+    items += [("h2", c) for c in h2_configs(chk)]
+    items += [("h3", c) for c in h3_configs(chk)]
+    items += [("h4", n) for n in c_models()]
     if getattr(chk, "only", None):
-        cfgs = [c for c in cfgs if chk.only in "H1/%s/%s/%s" % (c[0], c[1], c[2])]
-    chk.add(pmap(unit_h1, cfgs))
+        def label(it):
+            k, c = it
+            if k == "h4":
+                return "H4/%s" % c
+            return "%s/%s/%s/%s" % (k.upper(), c[0], c[1], c[2])
+        items = [it for it in items if chk.only in label(it)]
+    # build every IR once, before forking workers
+    pmap(_prebuild, sorted({(c if k == "h4" else c[0]) for k, c in items}))
+    # long units first
+    order = {"h2": 0, "h3": 1, "h1": 2, "h4": 3}
+    items.sort(key=lambda it: order[it[0]])
+    chk.add(pmap(_dispatch, items))
